@@ -1422,37 +1422,59 @@ func mitigationStopHandshake(c *Ctx, id string) {
 		c.see(fn)
 		var bad []string
 		n := 0
-		allInstrs(fn, func(in ssa.Instruction) {
-			what := ""
-			switch x := in.(type) {
-			case *ssa.Send:
-				if strings.HasSuffix(w.Origin(x.Chan), ".observeCloseCh") {
-					what = "close request"
+		timerGuarded := func(b *ssa.BasicBlock) bool {
+			gs := guardsOf(b)
+			if len(gs) != 1 {
+				return false
+			}
+			v, pol := stripNot(gs[0].Cond, gs[0].Branch)
+			eq, isCmp := isNilCompare(v, func(y ssa.Value) bool { return loadedField(unwrap(y)) == tick })
+			return isCmp && eq != pol
+		}
+		// the steps, in fn itself or in a helper method of the mitigation that fn calls under the timer test
+		var collect func(f *ssa.Function, under bool, depth int)
+		collect = func(f *ssa.Function, under bool, depth int) {
+			allInstrs(f, func(in ssa.Instruction) {
+				what := ""
+				switch x := in.(type) {
+				case *ssa.Send:
+					if strings.HasSuffix(w.Origin(x.Chan), ".observeCloseCh") {
+						what = "close request"
+					}
+				case *ssa.UnOp:
+					if x.Op.String() == "<-" && strings.HasSuffix(w.Origin(x.X), ".observeCloseDoneCh") {
+						what = "acknowledgement"
+					}
+				case *ssa.Call:
+					if calleeName(x.Common()) == "(*time.Ticker).Stop" || calleeName(x.Common()) == "(*time.Timer).Stop" {
+						what = "timer stop"
+					}
+					if h := x.Common().StaticCallee(); h != nil && depth < 2 && h != f && h.Pkg == fn.Pkg && h.Signature.Recv() != nil && recvTypeName(h.Signature.Recv().Type()) == "rollbackMitigation" && h.Name() != "Stop" && h.Name() != "reconfigure" {
+						okCall := timerGuarded(in.Block())
+						if under {
+							okCall = len(guardsOf(in.Block())) == 0
+						}
+						before := n
+						collect(h, true, depth+1)
+						if n > before && !okCall {
+							bad = append(bad, "steps of "+h.Name()+" called @"+w.pos(in.Pos()))
+						}
+					}
 				}
-			case *ssa.UnOp:
-				if x.Op.String() == "<-" && strings.HasSuffix(w.Origin(x.X), ".observeCloseDoneCh") {
-					what = "acknowledgement"
+				if what == "" {
+					return
 				}
-			case *ssa.Call:
-				if calleeName(x.Common()) == "(*time.Ticker).Stop" || calleeName(x.Common()) == "(*time.Timer).Stop" {
-					what = "timer stop"
+				n++
+				ok := timerGuarded(in.Block())
+				if under {
+					ok = len(guardsOf(in.Block())) == 0
 				}
-			}
-			if what == "" {
-				return
-			}
-			n++
-			gs := guardsOf(in.Block())
-			ok := len(gs) == 1
-			if ok {
-				v, pol := stripNot(gs[0].Cond, gs[0].Branch)
-				eq, isCmp := isNilCompare(v, func(y ssa.Value) bool { return loadedField(unwrap(y)) == tick })
-				ok = isCmp && eq != pol
-			}
-			if !ok {
-				bad = append(bad, what+" @"+w.pos(in.Pos()))
-			}
-		})
+				if !ok {
+					bad = append(bad, what+" @"+w.pos(in.Pos()))
+				}
+			})
+		}
+		collect(fn, false, 0)
 		c.Check(len(bad) == 0 && n == 3, id, "stop-handshake@"+name, fn.Pos(), "timer stop, close request and acknowledgement happen ⇔ an observe loop is running (observeTimer≠nil)", fmt.Sprintf("%s does not perform its three-step handshake exactly under observeTimer≠nil (%d steps found; misguarded: %v): the observe loop outlives the stop, or a nil timer is dereferenced", name, n, bad))
 	}
 	if rc, ma := w.Method("couchbase", "rollbackMitigation", "reconfigure"), w.Method("couchbase", "rollbackMitigation", "markAbsentInstances"); rc != nil && ma != nil {
